@@ -215,7 +215,7 @@ func runC13(c *Ctx) {
 				var expOp, reasonOp *idxOp
 				for i := range wops {
 					v0, _ := wops[i].val.(*ssa.Slice)
-					if !appended && b0 != nil && v0 != nil && b0.X == v0.X {
+					if !appended && b0 != nil && v0 != nil && (b0.X == v0.X || arrayOrigin(b0.X) == arrayOrigin(v0.X)) {
 						expOp = &wops[i]
 					} else if pv, isV := pu[0].(ssa.Value); appended && isV && wops[i].val == pv {
 						expOp = &wops[i]
@@ -1017,4 +1017,57 @@ func (c *Ctx) banStoreDiscipline() {
 		dels := opSites(opsOfKind(c.banIndexOps(cl[0]), "Delete"))
 		c.mustFollow(cl[0], "record expired", c.failEdges(g), oneOf(dels), "removal of the expired record (lazy expiry)", nil, 1)
 	}
+}
+
+// arrayOrigin: the array cell whose contents the cell v holds: v itself, or,
+// when v is written once and with a whole-array copy of another local cell
+// (`out := buf`, a helper returning its scratch array by value), that cell's
+// origin.
+func arrayOrigin(v ssa.Value) ssa.Value {
+	for d := 0; d < 4; d++ {
+		al, ok := v.(*ssa.Alloc)
+		if !ok {
+			return v
+		}
+		var stores []*ssa.Store
+		for _, r := range ir.Refs(al) {
+			if st, isSt := r.(*ssa.Store); isSt && st.Addr == ssa.Value(al) {
+				stores = append(stores, st)
+			}
+		}
+		if len(stores) != 1 {
+			return v
+		}
+		val := stores[0].Val
+		if ph, isPhi := val.(*ssa.Phi); isPhi {
+			// result variable of a written-out helper: every edge the same load
+			var one ssa.Value
+			same := true
+			for _, e := range ph.Edges {
+				if one == nil {
+					one = e
+				} else if ld1, ok1 := one.(*ssa.UnOp); ok1 {
+					if ld2, ok2 := e.(*ssa.UnOp); !ok2 || ld1.X != ld2.X {
+						same = false
+					}
+				} else if one != e {
+					same = false
+				}
+			}
+			if !same || one == nil {
+				return v
+			}
+			val = one
+		}
+		ld, ok := val.(*ssa.UnOp)
+		if !ok || ld.Op != token.MUL {
+			return v
+		}
+		src, ok := ld.X.(*ssa.Alloc)
+		if !ok || !types.Identical(src.Type(), al.Type()) {
+			return v
+		}
+		v = src
+	}
+	return v
 }
